@@ -200,22 +200,26 @@ def writeControl (c : Control) (token : Token) (ack : Nat) (cap : Nat) : WriteRe
     else .panic "ControlPacket::write: result.len() <= MAX_PACKETSIZE"
   | r => r
 
+/-- the compression decision of `write_impl`: `some s` = the compressed form `s` is sent (it fitted
+into the 2048-byte buffer and is strictly shorter than `p`), `none` = `p` is sent as it is -/
+def chooseCompression (t : Huffman.Table) (p : List UInt8) : Option (List UInt8) :=
+  match Huffman.compressInto t false p COMPRESSION_BUFFER_CAP with
+  | some s => if s.length < p.length then some s else none
+  | none => none
+
 /-- the `Chunks` arm of `ConnectedPacket::write_impl` -/
 def writeChunks (t : Huffman.Table) (ack : Nat) (token : Token) (requestResend : Bool)
     (numChunks : Nat) (payload : List UInt8) (cap : Nat) : WriteResult :=
-  let comp := Huffman.compressInto t false payload COMPRESSION_BUFFER_CAP
-  let useComp := match comp with
-    | some s => decide (s.length < payload.length)
-    | none => false
+  let comp := chooseCompression t payload
   let flags := (if requestResend then PACKETFLAG_REQUEST_RESEND else 0)
-               ||| (if useComp then PACKETFLAG_COMPRESSION else 0)
+               ||| (if comp.isSome then PACKETFLAG_COMPRESSION else 0)
   match PacketHeader.pack { flags := flags, ack := ack, numChunks := numChunks, token := token } with
   | none => .panic "PacketHeader::pack"
   | some hdr =>
   match bufWrite cap [] (hdrBytes hdr token) with
   | none => .capacity
   | some b1 =>
-  match bufWrite cap b1 (if useComp then comp.getD [] else payload) with
+  match bufWrite cap b1 (comp.getD payload) with
   | none => .capacity
   | some b2 => .ok b2
 
@@ -393,6 +397,44 @@ def readControl (h : PacketHeader) (payload : List UInt8) (src : Src) (off : Nat
         | (w, .error e) => (w0 ++ w1 ++ w, .error e)
     else (w0 ++ w1, .error .unknownControl)
 
+/-- embedding of the panic-free part of the reader -/
+def ReadResult.lift : Except (ReadError × List Warning) ReadOk → ReadResult
+  | .ok r => .ok r
+  | .error (e, ws) => .err e ws
+
+/-- `read_impl` for a header with the connless flag -/
+def readConnless (bytes : List UInt8) (wh : List Warning) : Except (ReadError × List Warning) ReadOk :=
+  if bytes.length < HEADER_SIZE_CONNLESS then .error (.tooShort, wh)
+  else
+    let (hc, wc) := PacketHeaderConnless.unpackWarn (bytes.getD 0 0).toNat (tok4 (bytes.drop 1))
+                      (tok4 (bytes.drop 5))
+    if hc.version ≠ CONNLESS_VERSION then .error (.unknownConnlessVersion, wh ++ wc)
+    else
+      let wf : List Warning :=
+        if hc.flags &&& PACKETFLAG_COMPRESSION ≠ 0 ∨ hc.flags &&& PACKETFLAG_REQUEST_RESEND ≠ 0
+           ∨ hc.flags &&& PACKETFLAG_CONTROL ≠ 0 then [.connlessFlags] else []
+      .ok { pkt := .connless (bytes.drop HEADER_SIZE_CONNLESS) hc.token hc.responseToken,
+            warns := wh ++ wc ++ wf,
+            loc := some { src := .input, off := HEADER_SIZE_CONNLESS }, scratch := [] }
+
+/-- `read_impl` after the (possibly decompressed) payload of a connected packet has been located:
+`payload` lives at offset `HEADER_SIZE` of `src`; `totalLen` = `bytes.len()`. No panic site is left
+in this part. -/
+def readBody (h : PacketHeader) (wh : List Warning) (payload : List UInt8) (src : Src)
+    (scratch : List UInt8) (totalLen : Nat) : Except (ReadError × List Warning) ReadOk :=
+  if payload.length > READ_PAYLOAD_LIMIT then .error (.compression, wh)
+  else if h.flags &&& PACKETFLAG_CONTROL ≠ 0 then
+    match readControl h payload src HEADER_SIZE totalLen with
+    | (ws, .error e) => .error (e, wh ++ ws)
+    | (ws, .ok (c, loc)) =>
+      .ok { pkt := .connected h.ack h.token (.control c), warns := wh ++ ws, loc := loc,
+            scratch := scratch }
+  else
+    let rr : Bool := h.flags &&& PACKETFLAG_REQUEST_RESEND ≠ 0
+    let wn : List Warning := if h.numChunks = 0 ∧ ¬ rr then [.chunksNoChunks] else []
+    .ok { pkt := .connected h.ack h.token (.chunks rr h.numChunks payload), warns := wh ++ wn,
+          loc := some { src := src, off := HEADER_SIZE }, scratch := scratch }
+
 /-- `Packet::read_impl`. `buffer = some cap`: `Packet::read`; `none`: `read_panic_on_decompression`. -/
 def read (t : Huffman.Table) (bytes : List UInt8) (buffer : Option Nat) : ReadResult :=
   if (match buffer with | some cap => decide (cap < MAX_PACKETSIZE) | none => false) then
@@ -400,50 +442,21 @@ def read (t : Huffman.Table) (bytes : List UInt8) (buffer : Option Nat) : ReadRe
   else if bytes.length > MAX_PACKETSIZE then .err .tooLong []
   else if bytes.length < HEADER_SIZE then .err .tooShort []
   else
-    let b0 := (bytes.getD 0 0).toNat
-    let (h, wh) := PacketHeader.unpackWarn b0 (bytes.getD 1 0).toNat (bytes.getD 2 0).toNat
-                     (tok4 (bytes.drop 3))
-    if h.flags &&& PACKETFLAG_CONNLESS ≠ 0 then
-      if bytes.length < HEADER_SIZE_CONNLESS then .err .tooShort wh
-      else
-        let (hc, wc) := PacketHeaderConnless.unpackWarn b0 (tok4 (bytes.drop 1)) (tok4 (bytes.drop 5))
-        if hc.version ≠ CONNLESS_VERSION then .err .unknownConnlessVersion (wh ++ wc)
-        else
-          let wf : List Warning :=
-            if hc.flags &&& PACKETFLAG_COMPRESSION ≠ 0 ∨ hc.flags &&& PACKETFLAG_REQUEST_RESEND ≠ 0
-               ∨ hc.flags &&& PACKETFLAG_CONTROL ≠ 0 then [.connlessFlags] else []
-          .ok { pkt := .connless (bytes.drop HEADER_SIZE_CONNLESS) hc.token hc.responseToken,
-                warns := wh ++ wc ++ wf,
-                loc := some { src := .input, off := HEADER_SIZE_CONNLESS }, scratch := [] }
-    else
-      let dec : Except ReadResult (List UInt8 × Src × List UInt8) :=
-        if h.flags &&& PACKETFLAG_COMPRESSION ≠ 0 then
-          match buffer with
-          | none => .error (.panic "read_panic_on_decompression called on compressed packet")
-          | some cap =>
-            match decompress t bytes cap with
-            | .ok s =>
-              if s.length < HEADER_SIZE then .error (.panic "ref_and_rest_from(decompressed).unwrap()")
-              else .ok (s.drop HEADER_SIZE, .scratch, s)
-            | .capacity => .error (.err .compression wh)
-            | .panic site => .error (.panic site)
-            | .diverge => .error .diverge
-        else .ok (bytes.drop HEADER_SIZE, .input, [])
-      match dec with
-      | .error r => r
-      | .ok (payload, src, scratch) =>
-      if payload.length > READ_PAYLOAD_LIMIT then .err .compression wh
-      else if h.flags &&& PACKETFLAG_CONTROL ≠ 0 then
-        match readControl h payload src HEADER_SIZE bytes.length with
-        | (ws, .error e) => .err e (wh ++ ws)
-        | (ws, .ok (c, loc)) =>
-          .ok { pkt := .connected h.ack h.token (.control c), warns := wh ++ ws, loc := loc,
-                scratch := scratch }
-      else
-        let rr : Bool := h.flags &&& PACKETFLAG_REQUEST_RESEND ≠ 0
-        let wn : List Warning := if h.numChunks = 0 ∧ ¬ rr then [.chunksNoChunks] else []
-        .ok { pkt := .connected h.ack h.token (.chunks rr h.numChunks payload), warns := wh ++ wn,
-              loc := some { src := src, off := HEADER_SIZE }, scratch := scratch }
+    let hw := PacketHeader.unpackWarn (bytes.getD 0 0).toNat (bytes.getD 1 0).toNat
+                (bytes.getD 2 0).toNat (tok4 (bytes.drop 3))
+    if hw.1.flags &&& PACKETFLAG_CONNLESS ≠ 0 then .lift (readConnless bytes hw.2)
+    else if hw.1.flags &&& PACKETFLAG_COMPRESSION ≠ 0 then
+      match buffer with
+      | none => .panic "read_panic_on_decompression called on compressed packet"
+      | some cap =>
+        match decompress t bytes cap with
+        | .ok s =>
+          if s.length < HEADER_SIZE then .panic "ref_and_rest_from(decompressed).unwrap()"
+          else .lift (readBody hw.1 hw.2 (s.drop HEADER_SIZE) .scratch s bytes.length)
+        | .capacity => .err .compression hw.2
+        | .panic site => .panic site
+        | .diverge => .diverge
+    else .lift (readBody hw.1 hw.2 (bytes.drop HEADER_SIZE) .input [] bytes.length)
 
 /-- the byte-slice field of a packet -/
 def Packet.slice : Packet → Option (List UInt8)
